@@ -293,7 +293,7 @@ func (w *World) amountFor(r *Rand, thr *big.Int) *big.Int {
 	case 1:
 		return new(big.Int).Sub(e18(1), big.NewInt(1))
 	case 2:
-		if thr != nil && thr.Sign() > 0 {
+		if thr != nil && thr.Sign() > 0 && thr.Cmp(e18(1000)) <= 0 {
 			return new(big.Int).Set(thr)
 		}
 	}
@@ -338,6 +338,9 @@ func (w *World) genLockingOps(r *Rand) []*ELOp {
 			ops = append(ops, &ELOp{Kind: "create", Val: va.Addr().Hex(), Pub: hx(pub[:]), Guards: true, Fee: fee()})
 			for _, t := range toks {
 				amt := new(big.Int).Set(st.Tokens[t].Threshold)
+				if amt.Cmp(e18(1000)) > 0 {
+					amt = e18(1000) // a threshold set by a hostile request list; nobody can lock that
+				}
 				if r.Chance(0.6) {
 					amt.Add(amt, w.amountFor(r, nil))
 				}
